@@ -324,6 +324,9 @@ pub fn run_family_mode(ctx: &Ctx, family: &str, sub: &'static str, rep: &mut Rep
     if total {
         hargs.push("--total");
     }
+    if !ctx.quick() {
+        hargs.push("--deep");
+    }
     let out = match std::process::Command::new(&built.bin).args(&hargs).stderr(std::process::Stdio::null()).output() {
         Ok(o) => o,
         Err(e) => {
@@ -358,7 +361,7 @@ pub fn run_family_mode(ctx: &Ctx, family: &str, sub: &'static str, rep: &mut Rep
         rep.engine_failures.push("schedule explorer: empty operation list".into());
     }
     if let Some(f) = j.get("failure") {
-        let combo: Vec<String> = f["combo"].as_array().map(|a| a.iter().map(|x| x.to_string()).collect()).unwrap_or_default();
+        let combo: Vec<String> = vec![f["combo"].as_str().unwrap_or("").to_string()];
         let names: Vec<String> = f["ops"].as_array().map(|a| a.iter().filter_map(|x| x.as_str().map(String::from)).collect()).unwrap_or_default();
         let sched = std::fs::read_to_string(f["schedule_file"].as_str().unwrap_or("")).unwrap_or_default();
         let msg = f["message"].as_str().unwrap_or("").replace('\n', " ");
@@ -382,7 +385,7 @@ pub fn run_family_mode(ctx: &Ctx, family: &str, sub: &'static str, rep: &mut Rep
         "engine": "shuttle 0.9.3 DfsScheduler (exhaustive, unbounded) over a copy of the library with std::sync / std::thread / thread_local! rewritten to shuttle's",
         "operations": ops, "sequential_results": seq,
         "bodies": j["combos"], "bodies_explored": combos, "schedules": schedules, "max_schedules_per_body": j["max_schedules_per_combo"],
-        "body": "reset(); a(); spawn{a()} || spawn{b()} [|| spawn{c()}]; join; a(); b(); [c()]  -- all ordered pairs, all ordered triples of the first five operations",
+        "body": "reset(); a(); spawn{a()} || spawn{b()} [|| spawn{c()}]; join; a(); b(); [c()]  -- all ordered pairs, all ordered triples of the first five operations [thorough: also two calls per thread, spawn{a(); b()} || spawn{c(); d()} over the first four operations and spawn{a(); b()} || spawn{b(); a()} over all pairs]",
         "sync_tokens_rewritten_in_library": built.rewritten, "library_files": built.files,
         "operations_bound_to_real_library": bound,
         "note": if built.rewritten == 0 { "the library contains no synchronisation primitive, thread-local or static mutable state: the only scheduling points are spawn/join, so every schedule is equivalent to a sequential order of the calls; the exploration confirms that those agree" } else { "the library uses synchronisation primitives; every access is a scheduling point" },
@@ -416,16 +419,11 @@ pub fn replay(ctx: &Ctx, sub: &'static str, text: &str, coll: &Collector) {
     if parts.len() < 4 {
         return;
     }
-    let idx: Vec<&str> = parts[2].split(',').collect();
     let file = format!("{}/replay-schedule.txt", built.dir);
     if std::fs::write(&file, parts[3]).is_err() {
         return;
     }
-    let mut args = vec!["replay".to_string(), fam.to_string()];
-    for k in 0..3 {
-        args.push(idx.get(k).map(|s| s.to_string()).unwrap_or_else(|| "-".into()));
-    }
-    args.push(file);
+    let mut args = vec!["replay".to_string(), fam.to_string(), parts[2].to_string(), file];
     if total {
         args.push("--total".into());
     }
